@@ -932,6 +932,10 @@ func c13CompareAll(c *Ctx, r *Result, specs []*c13TASpec, results []*c13TARes, c
 			r.violate(Violation{Kind: "correspondence", Key: "C13:driver", What: "driver reply: " + c13Short(reply), Input: input, Broken: "driver"})
 			continue
 		}
+		if keyClass != "" && keyClass != "separable" && c13BelowSymlink(res.After, c13ParseTree(parts[1])) {
+			r.hist("tierA:mapped:map:model-skipped-symlinked-fork-dir")
+			continue
+		}
 		post, _ := c13ParseJSON([]byte(res.PostOuts))
 		mj, merr := c13ParseJSON([]byte(unhx(parts[0])))
 		if spec.Fault == "kill" {
